@@ -45,6 +45,8 @@ type Outcome struct {
 	ObligationViol       []string
 	HandoverViol         []string
 	GapViol              []string
+	OrphanChecks         int      // (cycle, target) pairs judged by the orphan rule
+	OrphanViol           []string // C01 in the closed loop: scraped before the cycle, still discovered, listed nowhere after it
 	HandoversSeen        int
 	HandoverViol2        []string // judged with the harness' own scrape counts
 	IndependentHandovers int
@@ -225,6 +227,32 @@ func Run(sc Scenario, root string, rseed int64) *Outcome {
 				}
 				if last <= int32(co.N) {
 					out.ObligationViol = append(out.ObligationViol, fmt.Sprintf("%s %d: all %d shards in sync, eligible targets %v unplaced, but requested scale %d does not exceed %d", label, c, co.N, unplaced, last, co.N))
+				}
+			}
+		}
+		// orphan rule (C01), judged in cycles in which every shard was ready, answered and had the current
+		// configuration: a target some shard listed before the cycle and that is still discovered is listed by some
+		// remaining shard after it
+		if co.AllSync {
+			disc := map[int]bool{}
+			for _, id := range w.Discovered() {
+				disc[id] = true
+			}
+			for si, m := range before.Shards {
+				for id := range m {
+					if !disc[id] {
+						continue
+					}
+					out.OrphanChecks++
+					kept := false
+					for _, m2 := range after.Shards {
+						if _, ok := m2[id]; ok {
+							kept = true
+						}
+					}
+					if !kept {
+						out.OrphanViol = append(out.OrphanViol, fmt.Sprintf("%s %d: target %d was listed by shard %d before the cycle (all %d shards in sync), is still discovered, and no shard lists it after the cycle (%d shards remain; scale requests %v)", label, c, id, si, co.N, len(after.Shards), co.Scales))
+					}
 				}
 			}
 		}
